@@ -20,7 +20,7 @@ func init() {
 		Explanation: "(R1) mirror pairs: for every type of pkg/config/v2 with both MarshalJSON and UnmarshalJSON, the relation {derived field <- shadow field} extracted from the SSA of UnmarshalJSON and the relation {shadow field <- derived field} extracted from MarshalJSON must cover the same (derived, shadow) pairs, and every `json:\"-\"` field of the type must appear in both or be listed runtime-only with a reason. " +
 			"(R2) tag lint over the type graph reachable from the dumped roots: no two fields of one struct (after embedding, at the winning depth) share a JSON key (encoding/json would drop both silently), no struct inherits a promoted MarshalJSON/UnmarshalJSON from an embedded field without defining its own (the promoted method would hijack the outer encoding). " +
 			"(R3) the persisted dump reassembles every part of the effective model: transferConfig reads every field of effectiveConfig and stores listeners, routers (with their original path), clusters, cluster path and extends into the MOSNConfig it marshals. " +
-			"(R4) producing the dump writes only memory allocated in the call. (R6) a MarshalJSON of pkg/config/v2 stores a zero value into its receiver copy only under emptiness guards (len(x) cmp 0, x cmp nil, x cmp \"\"), or when reflect.DeepEqual with the zero value established that nothing is lost. (R3, distinct elements) a pointer appended or stored inside a loop of transferConfig/DumpJSON designates storage allocated in that loop iteration. (R7) the read-back obligation on recorded host lists, shared with C12.R1. (R1 same-wire-type) every successful path of a custom UnmarshalJSON passes json.Unmarshal with a target of the type its MarshalJSON hands to json.Marshal.",
+			"(R4) producing the dump writes only memory allocated in the call. (R6) a MarshalJSON of pkg/config/v2 stores a zero value into its receiver copy only under emptiness guards (len(x) cmp 0, x cmp nil, x cmp \"\"), or when reflect.DeepEqual with the zero value established that nothing is lost. (R3, distinct elements) a pointer appended or stored inside a loop of transferConfig/DumpJSON designates storage allocated in that loop iteration. (R7) the read-back obligation on recorded host lists, shared with C12.R1. (R1 same-wire-type) every successful path of a custom UnmarshalJSON passes json.Unmarshal with a target of the type its MarshalJSON hands to json.Marshal. (R8) in the Parse*/parse*/trans* functions of pkg/configmanager no store into a field has a value computed by +,-,*,/,%,<<,>> from a load of the same field path.",
 		Run: runC19,
 	})
 }
@@ -44,6 +44,7 @@ func runC19(c *Ctx) {
 	c.Rule("C19.R2", "no duplicate JSON keys at the winning depth; no hijacking promoted (Un)MarshalJSON", 40)
 	c.Rule("C19.R3", "the persisted dump reassembles every part of the effective model", 8)
 	c.Rule("C19.R6", "MarshalJSON clears a field of its receiver copy only depending on emptiness, never on content", 1)
+	c.Rule("C19.R8", "parse-time rewrites of the configuration are idempotent (no field recomputed arithmetically from its own value)", 1)
 	c.Rule("C19.R7", "the hosts recorded for the dump are read back from the live host set, not taken from the update request", 1)
 	c.Rule("C19.R5", "files written by the directory-mode dump carry the extension the loader requires", 2)
 	c.Rule("C19.R4", "producing the persisted dump writes only freshly allocated memory", 5)
@@ -130,6 +131,7 @@ func runC19(c *Ctx) {
 	c19DistinctElements(c)
 	recordedHostsReadBack(c, "C19.R7")
 	c19FileNames(c)
+	c19ParseIdempotent(c)
 }
 
 // declaredMethod: method declared directly on T or *T (not promoted).
